@@ -253,8 +253,136 @@ func lockHelperSummaries(p *core.Program, spec guardSpec, fns []*ssa.Function) m
 }
 
 // runLockset checks one spec over the given functions.
+// entryLockLevels: unexported functions that are only ever called (never used
+// as values) and whose every call site, in the analysed functions, is reached
+// with the mutex held start their own analysis at the weakest level their
+// callers hold (a helper extracted from a critical section:
+// v.canHoldAnyValue() called between v.mutex.Lock() and Unlock()).
+func entryLockLevels(p *core.Program, spec guardSpec, fns []*ssa.Function) map[*ssa.Function]int {
+	inSet := map[*ssa.Function]bool{}
+	for _, f := range fns {
+		inSet[f] = true
+	}
+	usedAsValue := map[*ssa.Function]bool{}
+	sites := map[*ssa.Function][]ssa.CallInstruction{}
+	for _, fn := range p.RepoFns {
+		if fn.Synthetic != "" {
+			// pointer-receiver and bound-method wrappers: not code of the repository
+			continue
+		}
+		core.Instrs(fn, func(ins ssa.Instruction) {
+			var callee *ssa.Function
+			if c, ok := ins.(ssa.CallInstruction); ok {
+				callee = c.Common().StaticCallee()
+				if callee != nil {
+					_, isGo := ins.(*ssa.Go)
+					_, isDefer := ins.(*ssa.Defer)
+					if isGo || isDefer {
+						usedAsValue[callee] = true
+					} else {
+						sites[callee] = append(sites[callee], c)
+					}
+				}
+			}
+			for _, op := range ins.Operands(nil) {
+				if *op == nil {
+					continue
+				}
+				if f, ok := (*op).(*ssa.Function); ok && f != callee {
+					usedAsValue[f] = true
+					if f.Synthetic != "" {
+						// a bound-method or pointer-receiver wrapper used as a
+						// value: the method it wraps is used as a value
+						core.Instrs(f, func(i2 ssa.Instruction) {
+							if c2, ok := i2.(ssa.CallInstruction); ok {
+								if g := c2.Common().StaticCallee(); g != nil {
+									usedAsValue[g] = true
+								}
+							}
+						})
+					}
+				}
+			}
+		})
+	}
+	entry := map[*ssa.Function]int{}
+	levelAt := func(target ssa.Instruction) int {
+		fn := target.Parent()
+		type st struct {
+			b    *ssa.BasicBlock
+			held int
+		}
+		seen := map[st]bool{}
+		min, found := 3, false
+		var walk func(b *ssa.BasicBlock, held int)
+		walk = func(b *ssa.BasicBlock, held int) {
+			if seen[st{b, held}] {
+				return
+			}
+			seen[st{b, held}] = true
+			for _, ins := range b.Instrs {
+				if ins == target {
+					found = true
+					if held < min {
+						min = held
+					}
+					return
+				}
+				if c, ok := ins.(ssa.CallInstruction); ok {
+					if _, isDefer := ins.(*ssa.Defer); !isDefer {
+						switch mutexOp(c, spec) {
+						case "Lock":
+							held = 2
+						case "RLock":
+							held = 1
+						case "Unlock", "RUnlock":
+							held = 0
+						}
+					}
+				}
+			}
+			for _, s := range b.Succs {
+				walk(s, held)
+			}
+		}
+		if len(fn.Blocks) > 0 {
+			walk(fn.Blocks[0], entry[fn])
+		}
+		if !found {
+			return 0
+		}
+		return min
+	}
+	for round := 0; round < 3; round++ {
+		for _, fn := range fns {
+			if fn.Parent() != nil || usedAsValue[fn] || len(sites[fn]) == 0 {
+				continue
+			}
+			if obj := fn.Object(); obj == nil || obj.Exported() {
+				continue
+			}
+			lvl := 3
+			for _, c := range sites[fn] {
+				if !inSet[core.Outer(c.Parent())] {
+					lvl = 0
+					break
+				}
+				if l := levelAt(c); l < lvl {
+					lvl = l
+				}
+			}
+			if lvl == 3 {
+				lvl = 0
+			}
+			entry[fn] = lvl
+		}
+	}
+	return entry
+}
+
 func runLockset(p *core.Program, r *core.Report, rule string, spec guardSpec, fns []*ssa.Function) {
 	helpers := lockHelperSummaries(p, spec, fns)
+	entryHeld := entryLockLevels(p, spec, fns)
 	for _, fn := range fns {
 		evs := map[ssa.Instruction][]lockEvent{}
 		helperCalls := map[ssa.Instruction]*ssa.Function{}
@@ -510,7 +638,7 @@ func runLockset(p *core.Program, r *core.Report, rule string, spec guardSpec, fn
 				if _, isRet := ins.(*ssa.Return); isRet {
 					if helpers[fn] != nil {
 						record(fk+" returns holding "+spec.mutex, ins, false, "")
-					} else if s.held != 0 && !s.deferred {
+					} else if s.held != 0 && !s.deferred && entryHeld[fn] == 0 {
 						record(fk+" returns holding "+spec.mutex, ins, true, "a path returns with the mutex still held and no deferred unlock: the next locker blocks forever")
 					} else if hasLockOp {
 						record(fk+" returns holding "+spec.mutex, ins, false, "")
@@ -563,7 +691,7 @@ func runLockset(p *core.Program, r *core.Report, rule string, spec guardSpec, fn
 				walk(succ, s)
 			}
 		}
-		walk(fn.Blocks[0], lockState{deferred: deferUnlock})
+		walk(fn.Blocks[0], lockState{deferred: deferUnlock, held: entryHeld[fn]})
 		var keys []string
 		for k := range results {
 			keys = append(keys, k)
